@@ -161,11 +161,11 @@ func c02(c *ctx) {
 		sizes := []int{1 + rng.Intn(9), 1 + rng.Intn(33), 1 + rng.Intn(5)}
 		key := fmt.Sprintf("creader/%d", i)
 		if vh.Only(key) {
-			src := &vh.ChunkReader{Data: append([]byte(nil), p...), Sizes: sizes}
+			src := &vh.ChunkReader{Data: append([]byte(nil), p...), Sizes: sizes, DataErr: i%2 == 1}
 			cr := wsutil.NewCipherReader(src, k)
 			var got []byte
 			buf := make([]byte, 1+rng.Intn(40))
-			for {
+			for guard := 0; guard < 100000; guard++ {
 				m, err := cr.Read(buf)
 				got = append(got, buf[:m]...)
 				if err != nil {
